@@ -798,7 +798,12 @@ def run(ctx):
     import time
     t_gen = round(time.time() - ctx.t0, 1)
     try:
-        bad_idx = ctx.coq_failing(cases, "ok", imports=IMPORTS, preamble=kwt.preamble(), shard=80 if ctx.quick else 150, ty="case")
+        # at most two coqc processes at a time (several checks share the machine)
+        shard = 250
+        for base in range(0, len(cases), 2 * shard):
+            part = cases[base:base + 2 * shard]
+            bad_idx += [base + i for i in ctx.coq_failing(part, "ok", imports=IMPORTS, preamble=kwt.preamble(),
+                                                          shard=max(1, min(shard, (len(part) + 1) // 2)), ty="case")]
     except Exception as e:
         coq_error = str(e)[-1500:]
     t_coq = round(time.time() - ctx.t0 - t_gen, 1)
